@@ -727,7 +727,18 @@ func (p *Posix) createObjVersion(bucket, key string, size int64, acc auth.Accoun
 		versionId = nullVersionId
 	}
 
-	attrs, err := p.meta.ListAttributes(bucket, key)
+	// The object name can be replaced by a concurrent request at any time:
+	// size and attribute names are taken from the file that was opened, like
+	// the data and the attribute values below, not from the name.
+	if fi, err := sf.Stat(); err == nil {
+		size = fi.Size()
+	}
+	var attrs []string
+	if fl, ok := p.meta.(fileAttrLister); ok {
+		attrs, err = fl.ListAttributesFile(sf)
+	} else {
+		attrs, err = p.meta.ListAttributes(bucket, key)
+	}
 	if err != nil {
 		return versionPath, fmt.Errorf("load object attributes: %w", err)
 	}
